@@ -1,14 +1,14 @@
 CONSTANTS
   Kind = "m"
   MaxE = 2
-  MaxUR = 3
-  MaxF = 1
+  MaxUR = 0
+  MaxF = 0
   UseStop = FALSE
   Flat = FALSE
   Pre = FALSE
-  Shape = "any"
+  Shape = "wiggle"
   MaxP = 1
   MaxW = 1
 SPECIFICATION Spec
-INVARIANTS InvExact InvRoundTrip InvNearest InvBounded PrintSchedules
+INVARIANTS InvExact InvRoundTrip InvNearest InvBounded InvWord PrintSchedules
 CHECK_DEADLOCK FALSE
